@@ -79,6 +79,9 @@ def dispatch (op : String) (args : List String) : Option String :=
   -- history freedom: the second use of one MACer / Encryptor answers like the only use of a fresh one
   | "prim.mac2", [alg, key, _d1, d2] => some (match alg.toInt?, unhex key, unhex d2 with
       | some a, some k, some d => res (macCreate a k d) | _, _, _ => "bad-op")
+  -- the key's alg member changed after construction: refused or the tag of the algorithm the MACer was made for, never a panic
+  | "prim.macalg", [alg, key, _alg2, data] => some (match alg.toInt?, unhex key, unhex data with
+      | some a, some k, some d => (match macCreate a k d with | .ok _ => "ok" | _ => "err") | _, _, _ => "bad-op")
   | "prim.macrekey", [alg, _k1, k2, data] => some (match alg.toInt?, unhex k2, unhex data with
       | some a, some k, some d => res (macCreate a k d) | _, _, _ => "bad-op")
   | "prim.aead2", [alg, key, _n1, _p1, _a1, n2, p2, a2] => some (match alg.toInt?, unhex key, unhex n2, unhex p2, unhex a2 with
